@@ -1,7 +1,7 @@
 /-
   The lower bound of C01 on a fragment that contains ordinary calls, assignments and control flow.
 
-    * `Feat` / `frag F`: the fragment, switched on feature by feature (calls / assignments / flow);
+    * `Feat` / `frag D F`: the fragment, switched on feature by feature (calls / assignments / flow);
     * `Covers A s`: every access of `A` is present in the IR of `s`;
     * `CVM A s r`: `r` is monotone from `s` (`Mono`) and, when it is `.ok s'`, `Covers A s'`;
     * `visit_cvm …`: mutual structural induction over the fragment.
@@ -11,6 +11,7 @@
 -/
 import RattrProofs.Lemmas.Visit
 import RattrProofs.Lemmas.VisitSpec
+import RattrProofs.Lemmas.VisitClean
 
 set_option linter.unusedSectionVars false
 
@@ -65,26 +66,190 @@ theorem present_set {s : St} {x : NameS} {n b : Str} (hx : x ∈ s.sets) (hn : x
 
 /-! ### `CVM` -/
 
-/-- monotone from `s`, and a successful outcome covers `A`. -/
-structure CVM (A : List Access) (s : St) (r : Res) : Prop where
+/-- monotone from `s`; a successful outcome covers `A` and re-establishes the state invariant `I`. -/
+structure CVM (I : St → Prop) (A : List Access) (s : St) (r : Res) : Prop where
   mono : Mono s r
   cov : ∀ s', r = .ok s' → Covers A s'
+  inv : ∀ s', r = .ok s' → I s'
 
-theorem CVM.of_mono {s : St} {r : Res} (h : Mono s r) : CVM [] s r := ⟨h, fun s' _ => Covers.nil s'⟩
+theorem CVM.of_mono {I : St → Prop} {s : St} {r : Res} (h : Mono s r)
+    (hi : ∀ s', r = .ok s' → I s') : CVM I [] s r := ⟨h, fun s' _ => Covers.nil s', hi⟩
 
-theorem CVM.ok (s : St) : CVM [] s (.ok s) := CVM.of_mono (Mono.ok (StLe.refl s))
+theorem CVM.ok {I : St → Prop} (s : St) (hI : I s) : CVM I [] s (.ok s) :=
+  CVM.of_mono (Mono.ok (StLe.refl s)) (fun s' h => by cases h; exact hI)
 
-theorem CVM.bind {A B : List Access} {s : St} {r : Res} {f : St → Res}
-    (h1 : CVM A s r) (h2 : ∀ s₁, CVM B s₁ (f s₁)) : CVM (A ++ B) s (r >>>= f) := by
-  refine ⟨Mono.bind h1.mono fun s₁ => (h2 s₁).mono, fun s' hs => ?_⟩
-  obtain ⟨s₁, hr, hf⟩ := bind_ok hs
-  exact ((h1.cov s₁ hr).mono ((h2 s₁).mono s' hf).ir).append ((h2 s₁).cov s' hf)
+theorem CVM.bind {I : St → Prop} {A B : List Access} {s : St} {r : Res} {f : St → Res}
+    (h1 : CVM I A s r) (h2 : ∀ s₁, I s₁ → CVM I B s₁ (f s₁)) : CVM I (A ++ B) s (r >>>= f) := by
+  refine ⟨Mono.bind_gen fun s₁ hr => Mono.weaken (h1.mono s₁ hr) (h2 s₁ (h1.inv s₁ hr)).mono,
+    fun s' hs => ?_, fun s' hs => ?_⟩
+  · obtain ⟨s₁, hr, hf⟩ := bind_ok hs
+    have h2' := h2 s₁ (h1.inv s₁ hr)
+    exact ((h1.cov s₁ hr).mono (h2'.mono s' hf).ir).append (h2'.cov s' hf)
+  · obtain ⟨s₁, hr, hf⟩ := bind_ok hs
+    exact (h2 s₁ (h1.inv s₁ hr)).inv s' hf
 
-theorem CVM.weaken {A : List Access} {s₀ s : St} {r : Res} (h0 : StLe s₀ s) (h : CVM A s r) :
-    CVM A s₀ r := ⟨Mono.weaken h0 h.mono, h.cov⟩
+/-! ### which symbols a custom analyser can fire on; the context invariant -/
 
-theorem CVM.congr {A B : List Access} {s : St} {r : Res} (e : A = B) (h : CVM B s r) : CVM A s r :=
-  e ▸ h
+/-- a custom analyser could fire on this symbol: directly (`plugins.get_analyser` finds its
+qualified name), or — for an imported module — through `_get_target_in_imported_module`, when some
+analyser's name lies inside the module. -/
+def Dirty (env : Env) (mn : Str) (sym : Sym) : Bool :=
+  (analyserFor env mn (some sym)).isSome ||
+  (sym.kind == .import_ && env.analysers.any (fun q => (sym.qual ++ ['.']).isPrefixOf q))
+
+/-- no custom analyser is registered for a name of the analysed module itself (`mn.<id>`). The real
+plugin table (`getattr`, …, `sorted`, `collections.defaultdict`) satisfies this for every module
+not called `collections`. -/
+def ModClean (env : Env) (mn : Str) : Prop :=
+  ∀ q ∈ env.analysers, (mn ++ ['.']).isPrefixOf q = false
+
+/-- the keys under which `root` holds a symbol a custom analyser could fire on (for the real
+configuration: `getattr`, `hasattr`, `setattr`, `delattr`, `sorted`, and whatever name
+`collections.defaultdict` / `collections` was imported as). -/
+def dirtyKeys (env : Env) (mn : Str) (root : Context) : List Str :=
+  (root.flatten.filter (fun kv => Dirty env mn kv.2)).map (·.1)
+
+/-- the context invariant: a dirty symbol only ever sits under a key of `D`. -/
+def QD (env : Env) (mn : Str) (D : List Str) (kv : Str × Sym) : Prop :=
+  Dirty env mn kv.2 = true → kv.1 ∈ D
+
+def Inv (env : Env) (mn : Str) (D : List Str) (s : St) : Prop := CtxAll (QD env mn D) s.ctx
+
+theorem ctxAll_dirtyKeys (env : Env) (mn : Str) (root : Context) :
+    CtxAll (QD env mn (dirtyKeys env mn root)) root := by
+  intro sc hsc kv hkv hd
+  unfold dirtyKeys
+  exact List.mem_map.mpr ⟨kv, List.mem_filter.mpr ⟨List.mem_flatten.mpr ⟨sc, hsc, hkv⟩, hd⟩, rfl⟩
+
+/-- `ModClean` as a class, so that the invariant's closure property is found by instance search. -/
+class ModCleanC (env : Env) (mn : Str) : Prop where
+  out : ModClean env mn
+
+instance goodQD (env : Env) (mn : Str) (D : List Str) [hm : ModCleanC env mn] :
+    GoodQ (QD env mn D) where
+  good sym hk := by
+    intro hd
+    exfalso
+    have hq : env.analysers.contains (mn ++ '.' :: sym.name) = false := by
+      cases hc : env.analysers.contains (mn ++ '.' :: sym.name) with
+      | false => rfl
+      | true =>
+        have hmem : (mn ++ '.' :: sym.name) ∈ env.analysers := by simpa using hc
+        have := hm.out _ hmem
+        have hp : (mn ++ ['.']).isPrefixOf (mn ++ '.' :: sym.name) = true := by
+          have : mn ++ '.' :: sym.name = (mn ++ ['.']) ++ sym.name := by simp
+          rw [this]; simp
+        rw [hp] at this; cases this
+    have hq' : (mn ++ '.' :: sym.name) ∉ env.analysers := by
+      intro hmem
+      have : env.analysers.contains (mn ++ '.' :: sym.name) = true := by simpa using hmem
+      rw [hq] at this; cases this
+    rcases hk with h | h | h <;> simp [Dirty, analyserFor, h] at hd <;> exact hq' hd
+
+theorem dict_get?_mem {sc : Scope} {x : Str} {s : Sym} (h : Dict.get? sc x = some s) : (x, s) ∈ sc := by
+  induction sc with
+  | nil => simp [Dict.get?] at h
+  | cons p r ih =>
+    obtain ⟨k, v⟩ := p
+    simp only [Dict.get?] at h
+    split at h
+    · rename_i hk; injection h with h; subst h; subst hk; exact List.mem_cons_self
+    · exact List.mem_cons_of_mem _ (ih h)
+
+theorem ctx_get?_mem {c : Context} {x : Str} {s : Sym} (h : Context.get? c x = some s) :
+    ∃ sc ∈ c, (x, s) ∈ sc := by
+  induction c with
+  | nil => simp [Context.get?] at h
+  | cons sc r ih =>
+    simp only [Context.get?] at h
+    split at h
+    · rename_i s0 hs; injection h with h; subst h
+      exact ⟨sc, List.mem_cons_self, dict_get?_mem hs⟩
+    · obtain ⟨sc', h1, h2⟩ := ih h
+      exact ⟨sc', List.mem_cons_of_mem _ h1, h2⟩
+
+theorem firstSome_some {α β : Type} {f : α → Option β} {l : List α} {b : β}
+    (h : Context.firstSome f l = some b) : ∃ a ∈ l, f a = some b := by
+  induction l with
+  | nil => simp [Context.firstSome] at h
+  | cons a r ih =>
+    simp only [Context.firstSome] at h
+    split at h
+    · rename_i b0 hb; injection h with h; subst h; exact ⟨a, List.mem_cons_self, hb⟩
+    · obtain ⟨a', h1, h2⟩ := ih h
+      exact ⟨a', List.mem_cons_of_mem _ h1, h2⟩
+
+/-- the key `get_call_target` looks a callee spelling up under. -/
+def lookupKey (callee : Str) : Str := removeChar (withoutCallBrackets callee) '*'
+
+/-- neither the callee's key nor any dotted prefix of it is a key of `D`. -/
+def keyOk (D : List Str) (nm : Str) : Bool :=
+  !D.contains nm && (Context.namesRight nm).all (fun k => !D.contains k)
+
+theorem clean_of_get? {env : Env} {mn : Str} {D : List Str} {c : Context} {k : Str} {t : Sym}
+    (hc : CtxAll (QD env mn D) c) (hg : Context.get? c k = some t) (hk : D.contains k = false) :
+    Dirty env mn t = false := by
+  obtain ⟨sc, h1, h2⟩ := ctx_get?_mem hg
+  cases hd : Dirty env mn t with
+  | false => rfl
+  | true =>
+    have := hc sc h1 (k, t) h2 hd
+    have : D.contains k = true := by simpa using this
+    rw [hk] at this; cases this
+
+theorem analyserFor_of_clean {env : Env} {mn : Str} {t : Sym} (h : Dirty env mn t = false) :
+    analyserFor env mn (some t) = none := by
+  simp only [Dirty, Bool.or_eq_false_iff] at h
+  cases ha : analyserFor env mn (some t) with
+  | none => rfl
+  | some q => rw [ha] at h; simp at h
+
+theorem getCallTarget_clean (env : Env) (mn : Str) (D : List Str) (c : Context) (callee : Str)
+    (b w : Bool) (hc : CtxAll (QD env mn D) c) (hk : keyOk D (lookupKey callee) = true) :
+    analyserFor env mn (Context.getCallTarget env.ctxEnv c callee b w).1 = none := by
+  simp only [keyOk, Bool.and_eq_true, Bool.not_eq_true', List.all_eq_true] at hk
+  obtain ⟨hk1, hk2⟩ := hk
+  have key : ∀ t, (if (lookupKey callee).contains '.' && (Context.get? c (lookupKey callee)).isNone
+      then Context.targetInImportedModule c (lookupKey callee)
+      else Context.get? c (lookupKey callee)) = some t → analyserFor env mn (some t) = none := by
+    intro t ht
+    split at ht
+    · unfold Context.targetInImportedModule at ht
+      split at ht
+      · cases ht
+      · rename_i m hm
+        split at ht
+        · cases ht
+        · split at ht
+          · cases ht
+          · rename_i hkind _
+            injection ht with ht
+            subst ht
+            obtain ⟨k, hkin, hget⟩ := firstSome_some hm
+            have hcl := clean_of_get? hc hget (hk2 k hkin)
+            simp only [Dirty, Bool.or_eq_false_iff, Bool.and_eq_false_iff] at hcl
+            have hkind' : m.kind = .import_ := by simpa using hkind
+            simp only [analyserFor]
+            split
+            · rename_i hcont
+              exfalso
+              have hmem := List.contains_iff_mem.mp hcont
+              rcases hcl.2 with h1 | h1
+              · simp [hkind'] at h1
+              · have := List.any_eq_false.mp h1 _ hmem
+                have hp : ∀ X : Str, (m.qual ++ ['.']).isPrefixOf (m.qual ++ '.' :: X) = true := by
+                  intro X
+                  have e : m.qual ++ '.' :: X = (m.qual ++ ['.']) ++ X := by simp
+                  rw [e]; simp
+                rw [hp] at this
+                exact this rfl
+            · rfl
+    · exact analyserFor_of_clean (clean_of_get? hc ht hk1)
+  unfold Context.getCallTarget
+  simp only
+  repeat' split
+  all_goals first | rfl | exact key _ (by assumption)
+
 
 /-! ### the fragment -/
 
@@ -109,86 +274,76 @@ def isCallNode : Node → Bool
 
 mutual
 /-- the fragment. Always: pure chains, constants, displays, every node kind without a dedicated
-visitor. `F.calls`: calls whose callee is a pure chain not rooted at a getattr-family builtin.
+visitor. `F.calls`: calls whose callee is a pure chain not rooted at a getattr-family builtin and
+whose name (and every dotted prefix of it) is not a key of `D` (the keys under which the root
+context holds a symbol a custom analyser fires on).
 `F.assign`: `=`, `op=`, annotated assignments whose value is neither a lambda nor a `namedtuple`
 declaration (and, for annotated ones, not a call / tuple / list: the class-instance diversion drops
 the annotation). `F.flow`: `del`, `for`, `with`, comprehensions, `return`. -/
-def frag (F : Feat) : Node → Bool
+def frag (D : List Str) (F : Feat) : Node → Bool
   | .strConst _ => true
   | .const => true
-  | .seq _ elts _ => fragL F elts
-  | .dict ks vs => fragL F ks && fragL F vs
-  | .other _ kids => fragL F kids
+  | .seq _ elts _ => fragL D F elts
+  | .dict ks vs => fragL D F ks && fragL D F vs
+  | .other _ kids => fragL D F kids
   | .name .. => true
   | .attr v _ _ => pureChain v
   | .sub v sl _ => pureChain v && isConstNode sl
   | .starred v _ => pureChain v
   | .call f args _ kwv =>
-    F.calls && pureChain f && !xattrBuiltins.contains (chainBase f) && fragL F args && fragL F kwv
+    F.calls && pureChain f && !xattrBuiltins.contains (chainBase f) &&
+      keyOk D (lookupKey (withoutCallBrackets (chainSpell f ++ lit "()"))) && fragL D F args && fragL D F kwv
   | .assign ts v =>
-    F.assign && ts.all tgtOk && !lambdaInRhs v && !namedtupleInRhs v && frag F v
+    F.assign && ts.all tgtOk && !lambdaInRhs v && !namedtupleInRhs v && frag D F v
   | .augAssign t v =>
-    F.assign && storeChain t && !lambdaInRhs v && !namedtupleInRhs v && frag F v
-  | .annAssign t ann [] => F.assign && storeChain t && frag F ann
+    F.assign && storeChain t && !lambdaInRhs v && !namedtupleInRhs v && frag D F v
+  | .annAssign t ann [] => F.assign && storeChain t && frag D F ann
   | .annAssign t ann [v] =>
-    F.assign && storeChain t && frag F ann && !lambdaInRhs v && !namedtupleInRhs v &&
-      !isCallNode v && !isTupleOrList v && frag F v
+    F.assign && storeChain t && frag D F ann && !lambdaInRhs v && !namedtupleInRhs v &&
+      !isCallNode v && !isTupleOrList v && frag D F v
   | .annAssign _ _ (_ :: _ :: _) => false
-  | .delete ts => F.flow && fragL F ts
+  | .delete ts => F.flow && fragL D F ts
   | .forLoop t it body orelse =>
-    F.flow && tgtOk t && frag F it && fragL F body && fragL F orelse
-  | .withStmt items body => F.flow && fragL F items && fragL F body
-  | .withitem ce vars => F.flow && frag F ce && vars.all tgtOk
-  | .comp _ elts gens => F.flow && fragL F gens && fragL F elts
-  | .gen t it ifs => F.flow && tgtOk t && frag F it && fragL F ifs
+    F.flow && tgtOk t && frag D F it && fragL D F body && fragL D F orelse
+  | .withStmt items body => F.flow && fragL D F items && fragL D F body
+  | .withitem ce vars => F.flow && frag D F ce && vars.all tgtOk
+  | .comp _ elts gens => F.flow && fragL D F gens && fragL D F elts
+  | .gen t it ifs => F.flow && tgtOk t && frag D F it && fragL D F ifs
   | .ret [] => F.flow
-  | .ret [v] => F.flow && frag F v
+  | .ret [v] => F.flow && frag D F v
   | .ret (_ :: _ :: _) => false
   | .lam .. => false
   | .walrus .. => false
   | .funcDef .. => false
   | .classDef _ => false
   | .forbidden _ => false
-def fragL (F : Feat) : List Node → Bool
+def fragL (D : List Str) (F : Feat) : List Node → Bool
   | [] => true
-  | n :: r => frag F n && fragL F r
+  | n :: r => frag D F n && fragL D F r
 end
 
-theorem frag_of_pureChain (F : Feat) (n : Node) (h : pureChain n = true) : frag F n = true := by
+theorem frag_of_pureChain (D : List Str) (F : Feat) (n : Node) (h : pureChain n = true) : frag D F n = true := by
   cases n <;> simp [pureChain] at h <;> simp [frag, h]
 
-theorem fragL_of_all_pureChain (F : Feat) : ∀ l : List Node, l.all pureChain = true → fragL F l = true
+theorem fragL_of_all_pureChain (D : List Str) (F : Feat) : ∀ l : List Node, l.all pureChain = true → fragL D F l = true
   | [], _ => rfl
   | n :: r, h => by
     simp only [List.all_cons, Bool.and_eq_true] at h
-    simp [fragL, frag_of_pureChain F n h.1, fragL_of_all_pureChain F r h.2]
+    simp [fragL, frag_of_pureChain D F n h.1, fragL_of_all_pureChain D F r h.2]
 
-theorem frag_of_tgtOk (F : Feat) (t : Node) (h : tgtOk t = true) : frag F t = true := by
+theorem frag_of_tgtOk (D : List Str) (F : Feat) (t : Node) (h : tgtOk t = true) : frag D F t = true := by
   unfold tgtOk at h
   rcases Bool.or_eq_true _ _ |>.mp h with h | h
   · simp only [storeChain, Bool.and_eq_true] at h
-    exact frag_of_pureChain F t h.1
+    exact frag_of_pureChain D F t h.1
   · cases t <;> simp at h
-    simp [frag, fragL_of_all_pureChain F _ (List.all_eq_true.mpr h)]
+    simp [frag, fragL_of_all_pureChain D F _ (List.all_eq_true.mpr h)]
 
-theorem fragL_of_all_tgtOk (F : Feat) : ∀ l : List Node, l.all tgtOk = true → fragL F l = true
+theorem fragL_of_all_tgtOk (D : List Str) (F : Feat) : ∀ l : List Node, l.all tgtOk = true → fragL D F l = true
   | [], _ => rfl
   | n :: r, h => by
     simp only [List.all_cons, Bool.and_eq_true] at h
-    simp [fragL, frag_of_tgtOk F n h.1, fragL_of_all_tgtOk F r h.2]
-
-/-! ### no custom analyser triggers -/
-
-/-- the plugin table has no entry any symbol resolves to (e.g. `env.analysers = []`). With the real
-table, the calls that DO hit a custom analyser are exactly the getattr-family / sorted /
-defaultdict known findings of C01. -/
-def NoPlugins (env : Env) (mn : Str) : Prop := ∀ t, analyserFor env mn t = none
-
-theorem noPlugins_of_empty (env : Env) (mn : Str) (h : env.analysers = []) : NoPlugins env mn := by
-  intro t
-  cases t with
-  | none => rfl
-  | some t => simp [analyserFor, h]
+    simp [fragL, frag_of_tgtOk D F n h.1, fragL_of_all_tgtOk D F r h.2]
 
 /-! ### naming facts used by the call cases -/
 
@@ -218,9 +373,41 @@ theorem accesses_call (f : Node) (args : List Node) (kwn : List (Option Str)) (k
   have hs := spell_chain f (pureChain_isChain f hf)
   simp [accesses, accesses_spine_pureChain f hf, hs.1, hs.2]
 
-theorem cvm_pureChain (env : Env) (mn : Str) (n : Node) (h : pureChain n = true) (s : St) :
-    CVM (accesses false n) s (visit env mn n s) := by
-  refine ⟨visit_mono env mn n s, fun s' hs => ?_⟩
+/-! ### call-record builders keep the context -/
+
+theorem argNames_ok' : ∀ (args : List Node) (s : St) (k : St → List Str → Res) (s' : St),
+    argNames s args k = .ok s' → ∃ s₁ l, s₁.ctx = s.ctx ∧ k s₁ l = .ok s'
+  | [], s, k, s', h => ⟨s, [], rfl, h⟩
+  | a :: r, s, k, s', h => by
+    simp only [argNames] at h
+    split at h
+    · obtain ⟨s₁, l, hc, hk⟩ := argNames_ok' r _ _ s' h
+      refine ⟨s₁, _, ?_, hk⟩
+      rw [hc]; split <;> rfl
+    · cases h
+    · cases h
+
+theorem mkCall_ok' {s : St} {name : Str} {args : List Node} {kwn : List (Option Str)}
+    {kwv : List Node} {target : Option Sym} {self : Option Str} {k : St → CallSym → Res} {s' : St}
+    (h : mkCall s name args kwn kwv target self k = .ok s') :
+    ∃ s₁ c, s₁.ctx = s.ctx ∧ c.name = withoutCallBrackets name ∧ k s₁ c = .ok s' := by
+  unfold mkCall at h
+  obtain ⟨s₁, l, hc, h1⟩ := argNames_ok' _ _ _ _ h
+  obtain ⟨l2, h2⟩ := kwargNames_ok _ _ _ _ _ h1
+  exact ⟨s₁, _, hc, rfl, h2⟩
+
+section
+variable (env : Env) (mn : Str) (D : List Str) [ModCleanC env mn]
+
+theorem inv_of_cm {s : St} {r : Res} (h : CM (QD env mn D) s r) (hI : Inv env mn D s) :
+    ∀ s', r = .ok s' → Inv env mn D s' := fun s' hs => h s' hs hI
+
+theorem inv_of_ctx_eq {s s' : St} (h : s'.ctx = s.ctx) (hI : Inv env mn D s) : Inv env mn D s' := by
+  unfold Inv; rw [h]; exact hI
+
+theorem cvm_pureChain (n : Node) (h : pureChain n = true) (s : St) (hI : Inv env mn D s) :
+    CVM (Inv env mn D) (accesses false n) s (visit env mn n s) := by
+  refine ⟨visit_mono env mn n s, fun s' hs => ?_, inv_of_cm env mn D (visit_ck _ env mn n s) hI⟩
   obtain ⟨u, hu, g⟩ := visit_pureChain env mn n h s
   rw [hu] at hs
   cases hs
@@ -232,22 +419,24 @@ theorem cvm_pureChain (env : Env) (mn : Str) (n : Node) (h : pureChain n = true)
 def retK (env : Env) (mn : Str) (n : Node) : St → Bool → Res :=
   fun s handled => if handled then .ok s else visit env mn n s
 
-theorem retK_mono (env : Env) (mn : Str) (n : Node) (s₁ : St) (b : Bool) :
-    Mono s₁ (retK env mn n s₁ b) := by
+theorem retK_mono (n : Node) (s₁ : St) (b : Bool) : Mono s₁ (retK env mn n s₁ b) := by
   cases b
   · exact visit_mono env mn n s₁
   · exact Mono.ok (StLe.refl _)
 
-section
-variable (env : Env) (mn : Str) (f : Node) (args : List Node) (kwn : List (Option Str))
-  (kwv : List Node)
+theorem retK_ck (n : Node) (s₁ : St) (b : Bool) : CM (QD env mn D) s₁ (retK env mn n s₁ b) := by
+  cases b
+  · exact visit_ck _ env mn n s₁
+  · exact CM.ok (CK.refl _)
+
+variable (f : Node) (args : List Node) (kwn : List (Option Str)) (kwv : List Node)
   (hf : pureChain f = true) (hx : xattrBuiltins.contains (chainBase f) = false)
-  (hargs : ∀ s, CVM (accessesL args) s (visitList env mn args s))
-  (hkwv : ∀ s, CVM (accessesL kwv) s (visitList env mn kwv s))
+  (hargs : ∀ s, Inv env mn D s → CVM (Inv env mn D) (accessesL args) s (visitList env mn args s))
+  (hkwv : ∀ s, Inv env mn D s → CVM (Inv env mn D) (accessesL kwv) s (visitList env mn kwv s))
 include hf hx hargs hkwv
 
 /-- common tail: a record named like the callee was added, then the arguments were visited. -/
-theorem call_tail_cov {s₁ s₂ s' : St} {c : CallSym}
+theorem call_tail_cov {s₁ s₂ s' : St} {c : CallSym} (hI : Inv env mn D s₁)
     (hc : c.name = withoutCallBrackets (chainSpell f ++ lit "()"))
     (h2 : visitList env mn args { s₁ with calls := addCall s₁.calls c } = .ok s₂)
     (h3 : visitList env mn kwv s₂ = .ok s') :
@@ -255,27 +444,40 @@ theorem call_tail_cov {s₁ s₂ s' : St} {c : CallSym}
   rw [accesses_call f args kwn kwv hf]
   have hc' : c ∈ s'.calls :=
     (visitList_irLe h3).calls _ ((visitList_irLe h2).calls _ (mem_addCall_self _ _))
+  have ha := hargs { s₁ with calls := addCall s₁.calls c } hI
   refine Covers.append ?_ (Covers.append ?_ ?_)
   · intro a ha
     rcases List.mem_singleton.mp ha with rfl
     exact present_call hc' (by rw [hc, wcb_append_brackets])
-  · exact ((hargs _).cov s₂ h2).mono (visitList_irLe h3)
-  · exact (hkwv s₂).cov s' h3
+  · exact (ha.cov s₂ h2).mono (visitList_irLe h3)
+  · exact (hkwv s₂ (ha.inv s₂ h2)).cov s' h3
 
 /-- an ordinary call: recorded, and all its arguments visited. -/
-theorem visit_call_cvm (hno : NoPlugins env mn) (s : St) :
-    CVM (accesses false (.call f args kwn kwv)) s (visit env mn (.call f args kwn kwv) s) := by
-  refine ⟨visit_mono env mn _ s, fun s' h => ?_⟩
-  have hno' : ∀ t, analyserFor env mn t = none := hno
+theorem visit_call_cvm
+    (hkey : keyOk D (lookupKey (withoutCallBrackets (chainSpell f ++ lit "()"))) = true)
+    (s : St) (hI : Inv env mn D s) :
+    CVM (Inv env mn D) (accesses false (.call f args kwn kwv)) s
+      (visit env mn (.call f args kwn kwv) s) := by
+  refine ⟨visit_mono env mn _ s, fun s' h => ?_, inv_of_cm env mn D (visit_ck _ env mn _ s) hI⟩
+  have hno := getCallTarget_clean env mn D s.ctx
+    (withoutCallBrackets (chainSpell f ++ lit "()")) (isCallOnCall (.call f args kwn kwv)) false hI hkey
   unfold visit at h
-  simp only [targetName_call_chain f args kwn kwv hf, liftName, hno'] at h
+  simp only [targetName_call_chain f args kwn kwv hf, liftName, hno] at h
   rw [getAndVerify_ok (namesOf_call_chain true f args kwn kwv hf hx)] at h
-  obtain ⟨s₁, c, hc, _, hk⟩ := mkCall_ok h
+  obtain ⟨s₁, c, hctx, hc, hk⟩ := mkCall_ok' h
   obtain ⟨s₂, h2, h3⟩ := bind_ok hk
-  exact call_tail_cov env mn f args kwn kwv hf hx hargs hkwv hc h2 h3
+  have hI₁ : Inv env mn D s₁ := by
+    refine inv_of_ctx_eq env mn D ?_ hI
+    rw [hctx]
+    simp only
+    split
+    · split <;> exact (warnUndef_ir _ _ _).1
+    · exact (warnUndef_ir _ _ _).1
+  exact call_tail_cov env mn D f args kwn kwv hf hx hargs hkwv hI₁ hc h2 h3
 
 /-- `t = C(args)` with `C` a class: target, call and arguments are all reported. -/
-theorem assignDiv_class_cov (t : Node) (tail : List Node) (s s' : St) (ht : storeChain t = true)
+theorem assignDiv_class_cov (t : Node) (tail : List Node) (s s' : St) (hI : Inv env mn D s)
+    (ht : storeChain t = true)
     (hn : namedtupleInRhs (.call f args kwn kwv) = false)
     (hc : classInRhs env s.ctx (.call f args kwn kwv) = .ok true)
     (h : assignDiv env mn (t :: tail) (.call f args kwn kwv) s = .done (.ok s')) :
@@ -296,9 +498,13 @@ theorem assignDiv_class_cov (t : Node) (tail : List Node) (s s' : St) (ht : stor
     simp only [namesOf_chain false t (pureChain_isChain t ht.1),
       namesOf_call_chain false f args kwn kwv hf hx, liftName] at h
     injection h with h
-    obtain ⟨s₁, c, hcn, _, hk⟩ := mkCall_ok h
+    obtain ⟨s₁, c, hctx, hcn, hk⟩ := mkCall_ok' h
     obtain ⟨s₂, h2, hk⟩ := bind_ok hk
     obtain ⟨s₃, h3, h4⟩ := bind_ok hk
+    have hI₁ : Inv env mn D s₁ := inv_of_ctx_eq env mn D hctx hI
+    have hI₂ : Inv env mn D s₂ :=
+      (CM.addIdentifiersL (Q := QD env mn D) _ _ s₂ h2) hI₁
+    have ha := hargs s₂ hI₂
     have hle2 := (Mono.addIdentifiersL _ _ s₂ h2).ir
     have hle34 := (visitList_irLe h3).trans (visitList_irLe h4)
     refine Covers.append ?_ ?_
@@ -313,30 +519,33 @@ theorem assignDiv_class_cov (t : Node) (tail : List Node) (s s' : St) (ht : stor
         rcases List.mem_singleton.mp ha with rfl
         exact present_call (hle34.calls _ (hle2.calls _ (mem_addCall_self _ _)))
           (by rw [hcn, wcb_append_brackets])
-      · exact ((hargs _).cov s₃ h3).mono (visitList_irLe h4)
-      · exact (hkwv s₃).cov s' h4
+      · exact (ha.cov s₃ h3).mono (visitList_irLe h4)
+      · exact (hkwv s₃ (ha.inv s₃ h3)).cov s' h4
 
 /-- `return C(args)` / `return f(args)`: whichever path `visit_ReturnValue` takes. -/
 theorem visitReturnValue_call_cvm
-    (hv : ∀ s, CVM (accesses false (.call f args kwn kwv)) s (visit env mn (.call f args kwn kwv) s))
-    (s : St) :
-    CVM (accesses false (.call f args kwn kwv)) s
+    (hv : ∀ s, Inv env mn D s → CVM (Inv env mn D) (accesses false (.call f args kwn kwv)) s
+      (visit env mn (.call f args kwn kwv) s))
+    (s : St) (hI : Inv env mn D s) :
+    CVM (Inv env mn D) (accesses false (.call f args kwn kwv)) s
       (visitReturnValue env mn (.call f args kwn kwv) s (retK env mn (.call f args kwn kwv))) := by
-  refine ⟨visitReturnValue_mono env mn _ s _ (retK_mono env mn _), fun s' h => ?_⟩
+  refine ⟨visitReturnValue_mono env mn _ s _ (retK_mono env mn _), fun s' h => ?_,
+    inv_of_cm env mn D (visitReturnValue_ck _ env mn _ s _ (retK_ck env mn D _)) hI⟩
   unfold visitReturnValue at h
   simp only at h
   split at h
-  · exact (hv s).cov s' (by simpa [retK] using h)
+  · exact (hv s hI).cov s' (by simpa [retK] using h)
   · simp only [namesOf_call_chain true f args kwn kwv hf hx, liftName] at h
     split at h
-    · exact (hv s).cov s' (by simpa [retK] using h)
+    · exact (hv s hI).cov s' (by simpa [retK] using h)
     · simp only [namesOf_call_chain false f args kwn kwv hf hx] at h
-      obtain ⟨s₁, c, hcn, _, hk⟩ := mkCall_ok h
+      obtain ⟨s₁, c, hctx, hcn, hk⟩ := mkCall_ok' h
       obtain ⟨s₂, h2, hk⟩ := bind_ok hk
       obtain ⟨s₃, h3, h4⟩ := bind_ok hk
       have e : s₃ = s' := by simpa [retK] using h4
       subst e
-      exact call_tail_cov env mn f args kwn kwv hf hx hargs hkwv hcn h2 h3
+      exact call_tail_cov env mn D f args kwn kwv hf hx hargs hkwv
+        (inv_of_ctx_eq env mn D hctx hI) hcn h2 h3
 end
 
 /-- if the assignment diversions fully handled the statement (and succeeded), it was the
@@ -365,43 +574,48 @@ theorem assignDiv_done_ok_shape (env : Env) (mn : Str) (targets : List Node) (v 
 /-! ### the induction over the fragment -/
 
 mutual
-theorem visit_cvm (env : Env) (mn : Str) (F : Feat) (hno : NoPlugins env mn) :
-    ∀ (n : Node), frag F n = true → ∀ s : St, CVM (accesses false n) s (visit env mn n s)
-  | .strConst _, _, s => by rw [visit]; simpa [accesses] using CVM.ok s
-  | .const, _, s => by rw [visit]; simpa [accesses] using CVM.ok s
-  | .seq _ elts _, h, s => by
+theorem visit_cvm (env : Env) (mn : Str) (D : List Str) [ModCleanC env mn] (F : Feat) :
+    ∀ (n : Node), frag D F n = true → ∀ s : St, Inv env mn D s →
+      CVM (Inv env mn D) (accesses false n) s (visit env mn n s)
+  | .strConst _, _, s, hI => by rw [visit]; simpa [accesses] using CVM.ok s hI
+  | .const, _, s, hI => by rw [visit]; simpa [accesses] using CVM.ok s hI
+  | .seq _ elts _, h, s, hI => by
     rw [visit]
-    simpa [accesses] using visitList_cvm env mn F hno elts (by simpa [frag] using h) s
-  | .dict ks vs, h, s => by
+    simpa [accesses] using visitList_cvm env mn D F elts (by simpa [frag] using h) s hI
+  | .dict ks vs, h, s, hI => by
     simp only [frag, Bool.and_eq_true] at h
     rw [visit]
     simpa [accesses] using
-      CVM.bind (visitList_cvm env mn F hno ks h.1 s) fun s₁ => visitList_cvm env mn F hno vs h.2 s₁
-  | .other _ kids, h, s => by
+      CVM.bind (visitList_cvm env mn D F ks h.1 s hI) fun s₁ hI₁ => visitList_cvm env mn D F vs h.2 s₁ hI₁
+  | .other _ kids, h, s, hI => by
     rw [visit]
-    simpa [accesses] using visitList_cvm env mn F hno kids (by simpa [frag] using h) s
-  | .name id c, _, s => cvm_pureChain env mn _ rfl s
-  | .attr v a c, h, s => cvm_pureChain env mn _ (by simpa [frag, pureChain] using h) s
-  | .sub v sl c, h, s => cvm_pureChain env mn _ (by simpa [frag, pureChain] using h) s
-  | .starred v c, h, s => cvm_pureChain env mn _ (by simpa [frag, pureChain] using h) s
-  | .call f args kwn kwv, h, s => by
+    simpa [accesses] using visitList_cvm env mn D F kids (by simpa [frag] using h) s hI
+  | .name id c, _, s, hI => cvm_pureChain env mn D _ rfl s hI
+  | .attr v a c, h, s, hI => cvm_pureChain env mn D _ (by simpa [frag, pureChain] using h) s hI
+  | .sub v sl c, h, s, hI => cvm_pureChain env mn D _ (by simpa [frag, pureChain] using h) s hI
+  | .starred v c, h, s, hI => cvm_pureChain env mn D _ (by simpa [frag, pureChain] using h) s hI
+  | .call f args kwn kwv, h, s, hI => by
     simp only [frag, Bool.and_eq_true, Bool.not_eq_true'] at h
-    exact visit_call_cvm env mn f args kwn kwv h.1.1.1.2 h.1.1.2
-      (visitList_cvm env mn F hno args h.1.2) (visitList_cvm env mn F hno kwv h.2) hno s
-  | .assign ts v, h, s => by
+    exact visit_call_cvm env mn D f args kwn kwv h.1.1.1.1.2 h.1.1.1.2
+      (visitList_cvm env mn D F args h.1.2) (visitList_cvm env mn D F kwv h.2) h.1.1.2 s hI
+  | .assign ts v, h, s, hI => by
     simp only [frag, Bool.and_eq_true, Bool.not_eq_true'] at h
     obtain ⟨⟨⟨⟨_, hts⟩, hl⟩, hn⟩, hv⟩ := h
-    have hfts : fragL F ts = true := fragL_of_all_tgtOk F ts hts
-    have hgen : ∀ s₁, CVM (accesses false (.assign ts v)) s₁
-        (visitList env mn ts s₁ >>>= fun s₂ => visit env mn v s₂) := fun s₁ => by
+    have hfts : fragL D F ts = true := fragL_of_all_tgtOk D F ts hts
+    have hgen : ∀ s₁, Inv env mn D s₁ → CVM (Inv env mn D) (accesses false (.assign ts v)) s₁
+        (visitList env mn ts s₁ >>>= fun s₂ => visit env mn v s₂) := fun s₁ hI₁ => by
       simpa [accesses] using
-        CVM.bind (visitList_cvm env mn F hno ts hfts s₁) fun s₂ => visit_cvm env mn F hno v hv s₂
-    refine ⟨visit_mono env mn _ s, fun s' hs => ?_⟩
+        CVM.bind (visitList_cvm env mn D F ts hfts s₁ hI₁) fun s₂ hI₂ => visit_cvm env mn D F v hv s₂ hI₂
+    refine ⟨visit_mono env mn _ s, fun s' hs => ?_, inv_of_cm env mn D (visit_ck _ env mn _ s) hI⟩
     rw [visit] at hs
     cases hd : assignDiv env mn ts v s with
     | generic s₁ =>
       simp only [hd] at hs
-      exact (hgen s₁).cov s' hs
+      have hI₁ : Inv env mn D s₁ := by
+        have hck := assignDiv_ck (QD env mn D) env mn ts v s
+        rw [hd] at hck
+        exact hck hI
+      exact (hgen s₁ hI₁).cov s' hs
     | done r =>
       simp only [hd] at hs
       subst hs
@@ -422,25 +636,29 @@ theorem visit_cvm (env : Env) (mn : Str) (F : Feat) (hno : NoPlugins env mn) :
             unfold assignDiv at hd
             simp [hl, hn, hc, namesOf, liftName] at hd
             split at hd <;> simp at hd
-        obtain ⟨htail, hcov⟩ := assignDiv_class_cov env mn f args kwn kwv hv.1.1.1.2 hv.1.1.2
-          (visitList_cvm env mn F hno args hv.1.2) (visitList_cvm env mn F hno kwv hv.2)
-          t tail s s' ht hn hc hd
+        obtain ⟨htail, hcov⟩ := assignDiv_class_cov env mn D f args kwn kwv hv.1.1.1.1.2 hv.1.1.1.2
+          (visitList_cvm env mn D F args hv.1.2) (visitList_cvm env mn D F kwv hv.2)
+          t tail s s' hI ht hn hc hd
         subst htail
         simpa [accesses, accessesL] using hcov
-  | .augAssign t v, h, s => by
+  | .augAssign t v, h, s, hI => by
     simp only [frag, Bool.and_eq_true, Bool.not_eq_true'] at h
     obtain ⟨⟨⟨⟨_, ht⟩, hl⟩, hn⟩, hv⟩ := h
-    have hft : frag F t = true := frag_of_tgtOk F t (by simp [tgtOk, ht])
-    have hgen : ∀ s₁, CVM (accesses false (.augAssign t v)) s₁
-        (visit env mn t s₁ >>>= fun s₂ => visit env mn v s₂) := fun s₁ => by
+    have hft : frag D F t = true := frag_of_tgtOk D F t (by simp [tgtOk, ht])
+    have hgen : ∀ s₁, Inv env mn D s₁ → CVM (Inv env mn D) (accesses false (.augAssign t v)) s₁
+        (visit env mn t s₁ >>>= fun s₂ => visit env mn v s₂) := fun s₁ hI₁ => by
       simpa [accesses] using
-        CVM.bind (visit_cvm env mn F hno t hft s₁) fun s₂ => visit_cvm env mn F hno v hv s₂
-    refine ⟨visit_mono env mn _ s, fun s' hs => ?_⟩
+        CVM.bind (visit_cvm env mn D F t hft s₁ hI₁) fun s₂ hI₂ => visit_cvm env mn D F v hv s₂ hI₂
+    refine ⟨visit_mono env mn _ s, fun s' hs => ?_, inv_of_cm env mn D (visit_ck _ env mn _ s) hI⟩
     rw [visit] at hs
     cases hd : assignDiv env mn [t] v s with
     | generic s₁ =>
       simp only [hd] at hs
-      exact (hgen s₁).cov s' hs
+      have hI₁ : Inv env mn D s₁ := by
+        have hck := assignDiv_ck (QD env mn D) env mn [t] v s
+        rw [hd] at hck
+        exact hck hI
+      exact (hgen s₁ hI₁).cov s' hs
     | done r =>
       simp only [hd] at hs
       subst hs
@@ -448,28 +666,32 @@ theorem visit_cvm (env : Env) (mn : Str) (F : Feat) (hno : NoPlugins env mn) :
       cases v <;> simp [isCallNode] at hcall
       rename_i f args kwn kwv
       simp only [frag, Bool.and_eq_true, Bool.not_eq_true'] at hv
-      obtain ⟨_, hcov⟩ := assignDiv_class_cov env mn f args kwn kwv hv.1.1.1.2 hv.1.1.2
-        (visitList_cvm env mn F hno args hv.1.2) (visitList_cvm env mn F hno kwv hv.2)
-        t [] s s' ht hn hc hd
+      obtain ⟨_, hcov⟩ := assignDiv_class_cov env mn D f args kwn kwv hv.1.1.1.1.2 hv.1.1.1.2
+        (visitList_cvm env mn D F args hv.1.2) (visitList_cvm env mn D F kwv hv.2)
+        t [] s s' hI ht hn hc hd
       simpa [accesses] using hcov
-  | .annAssign t ann [], h, s => by
+  | .annAssign t ann [], h, s, hI => by
     simp only [frag, Bool.and_eq_true] at h
-    have hft : frag F t = true := frag_of_tgtOk F t (by simp [tgtOk, h.1.2])
+    have hft : frag D F t = true := frag_of_tgtOk D F t (by simp [tgtOk, h.1.2])
     rw [visit]
     simpa [accesses, accessesL] using
-      CVM.bind (CVM.of_mono (Mono.addIdentifiers s t)) fun s₁ =>
-        CVM.bind (visit_cvm env mn F hno t hft s₁) fun s₂ => visit_cvm env mn F hno ann h.2 s₂
-  | .annAssign t ann [v], h, s => by
+      CVM.bind (CVM.of_mono (Mono.addIdentifiers s t) (inv_of_cm env mn D (CM.addIdentifiers s t) hI)) fun s₁ hI₁ =>
+        CVM.bind (visit_cvm env mn D F t hft s₁ hI₁) fun s₂ hI₂ => visit_cvm env mn D F ann h.2 s₂ hI₂
+  | .annAssign t ann [v], h, s, hI => by
     simp only [frag, Bool.and_eq_true, Bool.not_eq_true'] at h
     obtain ⟨⟨⟨⟨⟨⟨⟨_, ht⟩, hann⟩, hl⟩, hn⟩, hnc⟩, _⟩, hv⟩ := h
-    have hft : frag F t = true := frag_of_tgtOk F t (by simp [tgtOk, ht])
-    refine ⟨visit_mono env mn _ s, fun s' hs => ?_⟩
+    have hft : frag D F t = true := frag_of_tgtOk D F t (by simp [tgtOk, ht])
+    refine ⟨visit_mono env mn _ s, fun s' hs => ?_, inv_of_cm env mn D (visit_ck _ env mn _ s) hI⟩
     rw [visit] at hs
     cases hd : assignDiv env mn [t] v s with
     | generic s₁ =>
       simp only [hd] at hs
-      have := (CVM.bind (visit_cvm env mn F hno t hft s₁) fun s₂ =>
-        CVM.bind (visit_cvm env mn F hno ann hann s₂) fun s₃ => visit_cvm env mn F hno v hv s₃).cov s' hs
+      have hI₁ : Inv env mn D s₁ := by
+        have hck := assignDiv_ck (QD env mn D) env mn [t] v s
+        rw [hd] at hck
+        exact hck hI
+      have := (CVM.bind (visit_cvm env mn D F t hft s₁ hI₁) fun s₂ hI₂ =>
+        CVM.bind (visit_cvm env mn D F ann hann s₂ hI₂) fun s₃ hI₃ => visit_cvm env mn D F v hv s₃ hI₃).cov s' hs
       simpa [accesses, accessesL] using this
     | done r =>
       simp only [hd] at hs
@@ -477,122 +699,160 @@ theorem visit_cvm (env : Env) (mn : Str) (F : Feat) (hno : NoPlugins env mn) :
       obtain ⟨_, hcall, _⟩ := assignDiv_done_ok_shape env mn [t] v s s' hl hn hd
       rw [hnc] at hcall
       cases hcall
-  | .annAssign _ _ (_ :: _ :: _), h, _ => by simp [frag] at h
-  | .delete ts, h, s => by
+  | .annAssign _ _ (_ :: _ :: _), h, _, _ => by simp [frag] at h
+  | .delete ts, h, s, hI => by
     simp only [frag, Bool.and_eq_true] at h
     rw [visit]
     simpa [accesses] using
-      CVM.bind (visitList_cvm env mn F hno ts h.2 s) fun s₁ =>
-        CVM.of_mono (Mono.removeIdentifiersL s₁ ts)
-  | .forLoop t it lbody orelse, h, s => by
+      CVM.bind (visitList_cvm env mn D F ts h.2 s hI) fun s₁ hI₁ =>
+        CVM.of_mono (Mono.removeIdentifiersL s₁ ts) (inv_of_cm env mn D (CM.removeIdentifiersL s₁ ts) hI₁)
+  | .forLoop t it lbody orelse, h, s, hI => by
     simp only [frag, Bool.and_eq_true] at h
     obtain ⟨⟨⟨⟨_, ht⟩, hit⟩, hb⟩, ho⟩ := h
     rw [visit]
     simpa [accesses] using
-      CVM.bind (CVM.of_mono (Mono.addIdentifiers s t)) fun s₁ =>
-        CVM.bind (visit_cvm env mn F hno t (frag_of_tgtOk F t ht) s₁) fun s₂ =>
-          CVM.bind (visit_cvm env mn F hno it hit s₂) fun s₃ =>
-            CVM.bind (visitList_cvm env mn F hno lbody hb s₃) fun s₄ =>
-              visitList_cvm env mn F hno orelse ho s₄
-  | .withStmt items wbody, h, s => by
+      CVM.bind (CVM.of_mono (Mono.addIdentifiers s t) (inv_of_cm env mn D (CM.addIdentifiers s t) hI)) fun s₁ hI₁ =>
+        CVM.bind (visit_cvm env mn D F t (frag_of_tgtOk D F t ht) s₁ hI₁) fun s₂ hI₂ =>
+          CVM.bind (visit_cvm env mn D F it hit s₂ hI₂) fun s₃ hI₃ =>
+            CVM.bind (visitList_cvm env mn D F lbody hb s₃ hI₃) fun s₄ hI₄ =>
+              visitList_cvm env mn D F orelse ho s₄ hI₄
+  | .withStmt items wbody, h, s, hI => by
     simp only [frag, Bool.and_eq_true] at h
     rw [visit]
     simpa [accesses] using
-      CVM.bind (CVM.of_mono (Mono.withRegister items s)) fun s₁ =>
-        CVM.bind (visitList_cvm env mn F hno items h.1.2 s₁) fun s₂ =>
-          visitList_cvm env mn F hno wbody h.2 s₂
-  | .withitem ce vars, h, s => by
+      CVM.bind (CVM.of_mono (Mono.withRegister items s) (inv_of_cm env mn D (CM.withRegister items s) hI)) fun s₁ hI₁ =>
+        CVM.bind (visitList_cvm env mn D F items h.1.2 s₁ hI₁) fun s₂ hI₂ =>
+          visitList_cvm env mn D F wbody h.2 s₂ hI₂
+  | .withitem ce vars, h, s, hI => by
     simp only [frag, Bool.and_eq_true] at h
     rw [visit]
     simpa [accesses] using
-      CVM.bind (visit_cvm env mn F hno ce h.1.2 s) fun s₁ =>
-        visitList_cvm env mn F hno vars (fragL_of_all_tgtOk F vars h.2) s₁
-  | .comp kind elts gens, h, s => by
+      CVM.bind (visit_cvm env mn D F ce h.1.2 s hI) fun s₁ hI₁ =>
+        visitList_cvm env mn D F vars (fragL_of_all_tgtOk D F vars h.2) s₁ hI₁
+  | .comp kind elts gens, h, s, hI => by
     simp only [frag, Bool.and_eq_true] at h
     rw [visit]
-    refine ⟨by rw [← visit]; exact visit_mono env mn (.comp kind elts gens) s, fun s' hs => ?_⟩
+    refine ⟨by rw [← visit]; exact visit_mono env mn (.comp kind elts gens) s, fun s' hs => ?_,
+      by rw [← visit]; exact inv_of_cm env mn D (visit_ck _ env mn (.comp kind elts gens) s) hI⟩
     obtain ⟨s₁, h1, hk⟩ := bind_ok hs
     obtain ⟨s₂, h2, h3⟩ := bind_ok hk
     cases h3
+    have hI0 : Inv env mn D { s with ctx := Context.push s.ctx } := CK.pushOnly s s hI
     have hc : Covers (accessesL gens ++ accessesL elts) s₂ :=
-      (((visitList_cvm env mn F hno gens h.1.2 _).cov s₁ h1).mono (visitList_irLe h2)).append
-        ((visitList_cvm env mn F hno elts h.2 s₁).cov s₂ h2)
+      (((visitList_cvm env mn D F gens h.1.2 _ hI0).cov s₁ h1).mono (visitList_irLe h2)).append
+        ((visitList_cvm env mn D F elts h.2 s₁ ((visitList_cvm env mn D F gens h.1.2 _ hI0).inv s₁ h1)).cov s₂ h2)
     have e : accesses false (.comp kind elts gens) = accessesL gens ++ accessesL elts := by
       simp [accesses]
     rw [e]
     exact Covers.mono (s' := { s₂ with ctx := Context.pop s₂.ctx }) (IrLe.of_eq rfl rfl rfl rfl) hc
-  | .gen t it ifs, h, s => by
+  | .gen t it ifs, h, s, hI => by
     simp only [frag, Bool.and_eq_true] at h
     obtain ⟨⟨⟨_, ht⟩, hit⟩, hi⟩ := h
     rw [visit]
     simpa [accesses] using
-      CVM.bind (CVM.of_mono (Mono.addIdentifiers s t)) fun s₁ =>
-        CVM.bind (visit_cvm env mn F hno t (frag_of_tgtOk F t ht) s₁) fun s₂ =>
-          CVM.bind (visit_cvm env mn F hno it hit s₂) fun s₃ => visitList_cvm env mn F hno ifs hi s₃
-  | .ret [], _, s => by rw [visit]; simpa [accesses, accessesL] using CVM.ok s
-  | .ret [v], h, s => by
+      CVM.bind (CVM.of_mono (Mono.addIdentifiers s t) (inv_of_cm env mn D (CM.addIdentifiers s t) hI)) fun s₁ hI₁ =>
+        CVM.bind (visit_cvm env mn D F t (frag_of_tgtOk D F t ht) s₁ hI₁) fun s₂ hI₂ =>
+          CVM.bind (visit_cvm env mn D F it hit s₂ hI₂) fun s₃ hI₃ => visitList_cvm env mn D F ifs hi s₃ hI₃
+  | .ret [], _, s, hI => by rw [visit]; simpa [accesses, accessesL] using CVM.ok s hI
+  | .ret [v], h, s, hI => by
     simp only [frag, Bool.and_eq_true] at h
     have e : accesses false (.ret [v]) = accesses false v := by simp [accesses, accessesL]
     rw [visit, e]
-    exact visitReturnValue_cvm env mn F hno v h.2 (visit_cvm env mn F hno v h.2) s
-  | .ret (_ :: _ :: _), h, _ => by simp [frag] at h
-  | .lam .., h, _ | .walrus .., h, _ | .funcDef .., h, _ | .classDef _, h, _
-  | .forbidden _, h, _ => by simp [frag] at h
+    exact visitReturnValue_cvm env mn D F v h.2 (visit_cvm env mn D F v h.2) s hI
+  | .ret (_ :: _ :: _), h, _, _ => by simp [frag] at h
+  | .lam .., h, _, _ | .walrus .., h, _, _ | .funcDef .., h, _, _ | .classDef _, h, _, _
+  | .forbidden _, h, _, _ => by simp [frag] at h
 
-theorem visitList_cvm (env : Env) (mn : Str) (F : Feat) (hno : NoPlugins env mn) :
-    ∀ (l : List Node), fragL F l = true → ∀ s : St, CVM (accessesL l) s (visitList env mn l s)
-  | [], _, s => by rw [visitList]; simpa [accessesL] using CVM.ok s
-  | n :: r, h, s => by
+theorem visitList_cvm (env : Env) (mn : Str) (D : List Str) [ModCleanC env mn] (F : Feat) :
+    ∀ (l : List Node), fragL D F l = true → ∀ s : St, Inv env mn D s →
+      CVM (Inv env mn D) (accessesL l) s (visitList env mn l s)
+  | [], _, s, hI => by rw [visitList]; simpa [accessesL] using CVM.ok s hI
+  | n :: r, h, s, hI => by
     simp only [fragL, Bool.and_eq_true] at h
     rw [visitList]
     simpa [accessesL] using
-      CVM.bind (visit_cvm env mn F hno n h.1 s) fun s₁ => visitList_cvm env mn F hno r h.2 s₁
+      CVM.bind (visit_cvm env mn D F n h.1 s hI) fun s₁ hI₁ => visitList_cvm env mn D F r h.2 s₁ hI₁
 
 /-- `visit_ReturnValue` on a fragment node, given the node's own `visit` theorem. -/
-theorem visitReturnValue_cvm (env : Env) (mn : Str) (F : Feat) (hno : NoPlugins env mn) :
-    ∀ (n : Node), frag F n = true → (∀ s, CVM (accesses false n) s (visit env mn n s)) →
-      ∀ s : St, CVM (accesses false n) s (visitReturnValue env mn n s (retK env mn n))
-  | .seq _ elts _, h, _, s => by
+theorem visitReturnValue_cvm (env : Env) (mn : Str) (D : List Str) [ModCleanC env mn] (F : Feat) :
+    ∀ (n : Node), frag D F n = true →
+      (∀ s, Inv env mn D s → CVM (Inv env mn D) (accesses false n) s (visit env mn n s)) →
+      ∀ s : St, Inv env mn D s →
+        CVM (Inv env mn D) (accesses false n) s (visitReturnValue env mn n s (retK env mn n))
+  | .seq _ elts _, h, _, s, hI => by
     rw [visitReturnValue]
     simpa [accesses, retK] using
-      CVM.bind (visitReturnElts_cvm env mn F hno elts (by simpa [frag] using h) s) fun s₁ => CVM.ok s₁
-  | .dict ks vs, h, _, s => by
+      CVM.bind (visitReturnElts_cvm env mn D F elts (by simpa [frag] using h) s hI) fun s₁ hI₁ => CVM.ok s₁ hI₁
+  | .dict ks vs, h, _, s, hI => by
     simp only [frag, Bool.and_eq_true] at h
     rw [visitReturnValue]
     simpa [accesses, retK] using
-      CVM.bind (visitReturnElts_cvm env mn F hno ks h.1 s) fun s₁ =>
-        CVM.bind (visitReturnElts_cvm env mn F hno vs h.2 s₁) fun s₂ => CVM.ok s₂
-  | .call f args kwn kwv, h, hv, s => by
+      CVM.bind (visitReturnElts_cvm env mn D F ks h.1 s hI) fun s₁ hI₁ =>
+        CVM.bind (visitReturnElts_cvm env mn D F vs h.2 s₁ hI₁) fun s₂ hI₂ => CVM.ok s₂ hI₂
+  | .call f args kwn kwv, h, hv, s, hI => by
     simp only [frag, Bool.and_eq_true, Bool.not_eq_true'] at h
-    exact visitReturnValue_call_cvm env mn f args kwn kwv h.1.1.1.2 h.1.1.2
-      (visitList_cvm env mn F hno args h.1.2) (visitList_cvm env mn F hno kwv h.2) hv s
-  | .name .., _, hv, s | .attr .., _, hv, s | .sub .., _, hv, s | .starred .., _, hv, s
-  | .lam .., _, hv, s | .comp .., _, hv, s | .gen .., _, hv, s | .walrus .., _, hv, s
-  | .strConst _, _, hv, s | .const, _, hv, s | .assign .., _, hv, s | .annAssign .., _, hv, s
-  | .augAssign .., _, hv, s | .delete .., _, hv, s | .forLoop .., _, hv, s
-  | .withStmt .., _, hv, s | .withitem .., _, hv, s | .funcDef .., _, hv, s
-  | .classDef _, _, hv, s | .ret _, _, hv, s | .forbidden _, _, hv, s | .other .., _, hv, s => by
+    exact visitReturnValue_call_cvm env mn D f args kwn kwv h.1.1.1.1.2 h.1.1.1.2
+      (visitList_cvm env mn D F args h.1.2) (visitList_cvm env mn D F kwv h.2) hv s hI
+  | .name .., _, hv, s, hI | .attr .., _, hv, s, hI | .sub .., _, hv, s, hI
+  | .starred .., _, hv, s, hI | .lam .., _, hv, s, hI | .comp .., _, hv, s, hI
+  | .gen .., _, hv, s, hI | .walrus .., _, hv, s, hI | .strConst _, _, hv, s, hI
+  | .const, _, hv, s, hI | .assign .., _, hv, s, hI | .annAssign .., _, hv, s, hI
+  | .augAssign .., _, hv, s, hI | .delete .., _, hv, s, hI | .forLoop .., _, hv, s, hI
+  | .withStmt .., _, hv, s, hI | .withitem .., _, hv, s, hI | .funcDef .., _, hv, s, hI
+  | .classDef _, _, hv, s, hI | .ret _, _, hv, s, hI | .forbidden _, _, hv, s, hI
+  | .other .., _, hv, s, hI => by
     unfold visitReturnValue
-    simpa [retK] using hv s
+    simpa [retK] using hv s hI
 
-theorem visitReturnElts_cvm (env : Env) (mn : Str) (F : Feat) (hno : NoPlugins env mn) :
-    ∀ (l : List Node), fragL F l = true → ∀ s : St,
-      CVM (accessesL l) s (visitReturnElts env mn l s)
-  | [], _, s => by rw [visitReturnElts]; simpa [accessesL] using CVM.ok s
-  | e :: r, h, s => by
+theorem visitReturnElts_cvm (env : Env) (mn : Str) (D : List Str) [ModCleanC env mn] (F : Feat) :
+    ∀ (l : List Node), fragL D F l = true → ∀ s : St, Inv env mn D s →
+      CVM (Inv env mn D) (accessesL l) s (visitReturnElts env mn l s)
+  | [], _, s, hI => by rw [visitReturnElts]; simpa [accessesL] using CVM.ok s hI
+  | e :: r, h, s, hI => by
     simp only [fragL, Bool.and_eq_true] at h
     rw [visitReturnElts]
-    have he := visitReturnValue_cvm env mn F hno e h.1 (visit_cvm env mn F hno e h.1) s
+    have he := visitReturnValue_cvm env mn D F e h.1 (visit_cvm env mn D F e h.1) s hI
     rw [accessesL]
-    exact CVM.bind he fun s₁ => visitReturnElts_cvm env mn F hno r h.2 s₁
+    exact CVM.bind he fun s₁ hI₁ => visitReturnElts_cvm env mn D F r h.2 s₁ hI₁
 end
 
-/-- the final form: `analyse` of a body in the fragment, when it succeeds, reports every access
-of the spec. -/
-theorem analyse_cover {env : Env} {mn : Str} {F : Feat} (hno : NoPlugins env mn) {root : Context}
-    {ps : Params} {body : List Node} (hb : fragL F body = true) {s' : St}
+mutual
+/-- the fragment of `C01_partial` (where success is PROVED) lies inside every `frag D F`. -/
+theorem frag_of_simple (D : List Str) (F : Feat) : ∀ n : Node, simple n = true → frag D F n = true
+  | .strConst _, _ => rfl
+  | .const, _ => rfl
+  | .seq _ elts _, h => by
+    simpa [frag] using fragL_of_simpleL D F elts (by simpa [simple] using h)
+  | .dict ks vs, h => by
+    simp only [simple, Bool.and_eq_true] at h
+    simp [frag, fragL_of_simpleL D F ks h.1, fragL_of_simpleL D F vs h.2]
+  | .other _ kids, h => by
+    simpa [frag] using fragL_of_simpleL D F kids (by simpa [simple] using h)
+  | .name .., _ => rfl
+  | .attr v _ _, h => by simpa [frag, simple] using h
+  | .sub v sl _, h => by simpa [frag, simple] using h
+  | .starred v _, h => by simpa [frag, simple] using h
+  | .call .., h | .lam .., h | .comp .., h | .gen .., h | .walrus .., h
+  | .assign .., h | .annAssign .., h | .augAssign .., h
+  | .delete .., h | .forLoop .., h | .withStmt .., h | .withitem .., h
+  | .funcDef .., h | .classDef _, h | .ret _, h | .forbidden _, h => by simp [simple] at h
+theorem fragL_of_simpleL (D : List Str) (F : Feat) :
+    ∀ l : List Node, simpleL l = true → fragL D F l = true
+  | [], _ => rfl
+  | n :: r, h => by
+    simp only [simpleL, Bool.and_eq_true] at h
+    simp [fragL, frag_of_simple D F n h.1, fragL_of_simpleL D F r h.2]
+end
+
+/-- the final form: `analyse` of a body in the fragment (relative to the dirty keys of `root`),
+when it succeeds, reports every access of the spec. -/
+theorem analyse_cover {env : Env} {mn : Str} {F : Feat} (hm : ModClean env mn) {root : Context}
+    {ps : Params} {body : List Node} (hb : fragL (dirtyKeys env mn root) F body = true) {s' : St}
     (h : analyse env mn root ps body = .ok s') : Covers (accessesL body) s' := by
+  haveI : ModCleanC env mn := ⟨hm⟩
   obtain ⟨u, hu, hle, _, _⟩ := analyse_inv h
-  exact ((visitList_cvm env mn F hno body hb _).cov u hu).mono hle
+  have hI : Inv env mn (dirtyKeys env mn root) (analyseInit root ps) :=
+    analyseInit_ctxAll (ctxAll_dirtyKeys env mn root) ps
+  exact ((visitList_cvm env mn _ F body hb _ hI).cov u hu).mono hle
 
 end Rattr.AccessSpec
